@@ -3,15 +3,96 @@
 manifest is always valid and in step with what ./check implements)."""
 import json, subprocess
 
+PBT = "property-based testing (proptest strategies from a constructive, model-guided generator; fixed seeds; shrinking to a replay file)"
 BUILT = {
  "C01": dict(
-  technique="property-based differential testing against an exact-rational reference model (proptest, constructive ledger generator, shrinking) + exhaustive 30-day window sweep",
-  text="Generated accepted ledgers (1-3 securities, fills, fees, terminating and non-terminating splits, asset events, shuffled line order) are run through cgt-core and every leg (rule, quantity, acquisition date; cost/proceeds/gain when no CAPRETURN/ACCUMULATION) is compared with an independent exact-arithmetic model of s105(1)/s106A/s104; the D+30/D+31 edge is enumerated exhaustively over calendar anchors. Exploration: held on everything generated, thousands (quick) to ~10^6 (thorough) ledgers.",
-  note="Trusted: the harness model (unit-tested on hand-computed examples, cross-checked by the hand-written window-sweep expectation), rust_decimal/chrono, tolerance 1e-12 rel (qty) / 1e-9 abs (money). Same-day split/event+trade placements excluded from the domain.",
+  technique=PBT + "; differential oracle = exact-rational reference model of s105(1)/s106A/s104; exhaustive 30-day window sweep",
+  text="Generated accepted ledgers (1-3 securities, fills, fees, terminating and non-terminating splits, asset events, shuffled line order) are run through cgt-core and every leg (rule, quantity, acquisition date; cost/proceeds/gain when no CAPRETURN/ACCUMULATION) is compared with an independent exact-arithmetic model; the D+30/D+31 edge is enumerated exhaustively over calendar anchors with a hand-written expectation. Exploration: ~11k ledgers quick, ~0.8M thorough.",
+  note="Trusted: the harness model (unit-tested, cross-checked by the hand-written window sweep), rust_decimal/chrono, tolerance 1e-12 rel (qty) / 1e-9 abs (money). Same-day split/event+trade placements are outside the domain.",
   ref="3 C01"),
+ "C02": dict(
+  technique=PBT + "; invariant oracle over report + input lines (leg sums, per-acquisition-day caps rescaled across splits, closing holdings)",
+  text="For every generated accepted ledger the three conservation laws are recomputed from the SELL/BUY/SPLIT lines in exact rationals and compared with the report. Exploration over the same strata as C01 plus an all-features stratum.",
+  note="Trusted: day aggregation in harness/src/model.rs; quantity tolerance 1e-12 relative.",
+  ref="3 C02"),
+ "C03": dict(
+  technique=PBT + "; conservation invariant per security in exact rationals (leg costs + closing cost = purchases + accumulations - net capital returns in effect)",
+  text="Cost conservation recomputed from input lines for generated ledgers with partial lots, fees, splits and CAPRETURN/ACCUMULATION events; an event counts iff shares were held at the close of the previous day.",
+  note="Trusted: day aggregation; money tolerance 1e-9. FX amounts are covered by C08's twin relation rather than here.",
+  ref="3 C03"),
+ "C04": dict(
+  technique=PBT + "; identities recomputed from the input lines over generated exemption configurations (embedded, replaced/added years, missing year must error)",
+  text="Every report identity in the statement (gross/net proceeds, leg sums, gain netting per disposal, year totals, disposal_count incl. JSON field, dividend sums, exemption lookup, taxable gain, UnsupportedExemptionYear instead of zero) is recomputed independently for generated multi-year ledgers incl. a zero-result/mixed stratum.",
+  note="Exemption override *files* are exercised through Config values here; the CLI path reads files in the process strata of C07/C16. Money tolerance 1e-9.",
+  ref="3 C04"),
+ "C05": dict(
+  technique=PBT + "; mutation-based generation (accepted ledger -> deleted BUY / duplicated SELL / +1 share / +1 ulp / SELL moved earlier / extra SELL next day) with the exact coverage predicate of the reference model as oracle",
+  text="Accept/refuse verdict of calculate() compared with exact cumulative coverage per security and date; on refusal the error must be InvalidTransaction naming an uncovered (security, ISO date). About half the generated cases are uncovered.",
+  note="'No other obstacle' by construction (GBP, all years configured, no CAPRETURN). Known finding F3 (rounding dust through non-terminating ratios) is attributed only by its exact signature.",
+  ref="3 C05"),
+ "C06": dict(
+  technique=PBT + "; metamorphic relation (permutation of lines, partition into files joined as the CLI does, fill splitting with equal totals) on the report minus echoed transactions",
+  text="Each accepted ledger is compared with a permuted + fill-split variant and with the same lines distributed over 1-4 files and re-parsed; reports must be equivalent and acceptance identical.",
+  note="File split is checked in-process through the same join+parse the CLI uses. Tolerance as C01 (weighted-average price is a rounded division).",
+  ref="3 C06"),
+ "C07": dict(
+  technique="exhaustive enumeration of every calendar date 1899-2102 against an independent 6-April rule + " + PBT + " over ledgers x every year filter (differential: single-year report vs slice of all-years report)",
+  text="TaxPeriod::from_date is checked on all 74,510 dates; generated ledgers biased to 5/6 April over 1-10 tax years are reported for every filter in [first-2,last+2] with the all-years and the embedded configuration and compared field by field with the all-years report; holdings must not depend on the filter.",
+  note="The third year derivation (MCP explain_matching) is exercised by C20's process stratum.",
+  ref="3 C07"),
+ "C08": dict(
+  technique=PBT + "; metamorphic twin (foreign ledger vs ledger pre-converted with an independently scanned rate table), generated rate folders, malformed files; CLI --fx-folder stratum",
+  text="Ledgers with per-field currencies over 2014-2027 and generated rate folders (overrides, new months, two files per month, both name styles) must equal their GBP twin or fail with MissingFxRate naming a genuinely missing pair; loaded cache compared with the expected table on overridden keys and neighbours; malformed files must be rejected; the real CLI with --fx-folder is compared with the twin.",
+  note="Trusted: harness scanner over crates/cgt-money/resources/rates (plain text scan), Decimal division identical on both sides.",
+  ref="3 C08"),
+ "C09": dict(
+  technique=PBT + "; metamorphic projection (report of all securities restricted to S vs report of S's lines alone; year totals additive) and ticker-case variants through DSL and JSON",
+  text="2-5 securities on a shared date axis with splits/events, shuffled; per-security projections, additivity of year totals and mixed-case tickers in both input formats.",
+  note="Tolerance as C01.",
+  ref="3 C09"),
+ "C10": dict(
+  technique=PBT + "; metamorphic twin (ledger rewritten in post-split units for one chosen split; inserted SPLIT r + UNSPLIT r pair)",
+  text="Gains, proceeds, costs and closing cost must be equal and quantities scale by the ratio for dates before the split; acceptance must be identical; an inserted split/unsplit pair must change nothing.",
+  note="Twins need exactly representable rescaled numbers, so ratios are 2,4,5,10,1.25,2.5 here; non-terminating ratios are judged against the exact model in C01/C02/C05.",
+  ref="3 C10"),
+ "C11": dict(
+  technique=PBT + "; metamorphic relations on an inserted event (exact cost delta, later-acquired legs unchanged, cancelling pair, dividend neutrality), sign invariant, refusal boundary against the exact pool cost",
+  text="Base ledger x one inserted CAPRETURN / ACCUMULATION / cancelling pair / DIVIDEND lines / boundary-sized return. Known findings F11 and F12 are attributed only when an emulation of the tool's own pre-pass reproduces exactly that behaviour.",
+  note="The tool's deliberate attachment of adjustments to earlier acquisitions (C12) is respected; refusal boundary judged only for pool-only histories.",
+  ref="3 C11"),
+ "C12": dict(
+  technique=PBT + "; history extension: prefix x continuation built by the same constructive builder from the prefix's closing holdings, starting 31+ days later",
+  text="Every disposal of report(P) must appear bit-identical in report(P+S); tax years that ended before S begins must be identical; P+S must be accepted.",
+  note="Continuations contain no CAPRETURN/ACCUMULATION (excluded by the statement).",
+  ref="3 C12"),
+ "C13": dict(
+  technique=PBT + " over lexical renderings, single-token corruptions and random byte edits; round-trip/line-count oracle for whatever parses",
+  text="Valid lists rendered with every combination of the listed lexical variations must parse to the same list; one corrupted token must produce a ParseError whose position is the corrupted line; byte-edited texts must either be rejected or parse completely (transactions = non-blank non-comment lines) and re-serialise.",
+  note="Corrupted files use LF/CRLF so the line number is well defined.",
+  ref="3 C13"),
+ "C14": dict(
+  technique=PBT + "; round-trip oracles (DSL write->parse, JSON write->read, idempotent writing) over the full decimal/date/currency domain + report equality across renderings",
+  text="Arbitrary transaction lists (96-bit mantissas, scales 0-28, every ISO-4217 code, keyword-like tickers, dates 0001-9999) and generated ledgers.",
+  note="Numeric equality of decimals; lower-case tickers are not expressible in the DSL.",
+  ref="3 C14"),
+ "C15": dict(
+  technique=PBT + " / generated fuzzing of every entry point with crash, cleanliness and validator oracles; CLI fault sequences against the real binary",
+  text="Arbitrary text, hostile ledgers, validator inputs with arbitrary signs, converter texts (in-process with panic capture) and generated CLI fault sequences (missing files, unwritable/pre-existing outputs, default-PDF protection, bad fx folders) checking exit codes, stdout emptiness and untouched output paths.",
+  note="Hangs are only detected by watchdog (exit 2). Known finding F7 (rust_decimal overflow panics) is attributed by exact message and location.",
+  ref="3 C15"),
+ "C18": dict(
+  technique=PBT + " over generated Schwab exports; row-conservation oracle computed from the rows, permutation and chunking metamorphic relations, DSL validity of the output",
+  text="Generated BrokerageTransactions arrays with every action type, amount spelling, date form, hostile descriptions, cancel rows, awards; output must parse, BUY/SELL multiset and dividend/withholding totals must equal the rows, skipped/warnings must account for the rest, order and chunking must not matter.",
+  note="Domain: alphanumeric symbols, non-negative numbers; dividends/withholding rows carry symbol and amount.",
+  ref="3 C18"),
+ "C19": dict(
+  technique=PBT + " over generated awards files and deposit dates; reference lookup written from the statement",
+  text="Awards entries at -12..+12 days around deposits with every field combination; the emitted BUY must carry the date and a price of the entry the 7-day look-back rule selects, or conversion must fail naming symbol and date.",
+  note="Ambiguous field combinations (blank vest value next to a fallback price) are not generated.",
+  ref="3 C19"),
 }
 
-NOT_YET = "check not built yet in this round (planned in DESIGN.md); not claimed"
+NOT_YET = "check not finished yet in this round (process-level / PDF parts in progress); not claimed until it runs clean"
 
 props = [json.loads(l) for l in open('/verif/properties.jsonl')]
 checks, na = [], []
